@@ -388,7 +388,8 @@ def plan(tier):
         for c in cfgs(three, ("report+ok", "ok", "report-in-ok"), ("Q",), (None, "start"), (False, True), False):
             items.append((c, 2, 20000))
         # pauses between the caller's statements: unsolicited lines arrive while no write() is in flight
-        for behs in (("ok+async-alarm", "ok", "report+ok"), ("ok", "ok+async-alarm", "ok"), ("status+ok", "report+ok", "ok")):
+        for behs in (("ok+async-alarm", "ok", "report+ok"), ("ok", "ok+async-alarm", "ok"), ("status+ok", "report+ok", "ok"),
+                     ("ok+async-alarm", "loss", "ok"), ("error", "loss", "ok")):
             for c in cfgs(three, behs, ("Q", "L"), (None,), (False, True), True):
                 items.append(({**c, "gap": True}, 0, None))
             for c in cfgs(three, behs, ("Q",), (None,), (False,), False):
